@@ -29,6 +29,11 @@ const NumAccounts = 8
 // Outsider is the index of the account that is never allow-listed.
 const Outsider = NumAccounts - 1
 
+// NumCrowd further accounts (indices NumAccounts..NumAccounts+NumCrowd-1) exist and are funded; the
+// generator uses them only for crowded order books (bid bursts), so that an auction can have more
+// distinct bidders than the eight regular accounts provide.
+const NumCrowd = 12
+
 var (
 	// T0 is the origin of generated time.
 	T0 = time.Date(2030, 1, 1, 0, 0, 0, 0, time.UTC)
@@ -45,7 +50,7 @@ var (
 )
 
 func init() {
-	for i := 0; i < NumAccounts; i++ {
+	for i := 0; i < NumAccounts+NumCrowd; i++ {
 		pk := secp256k1.GenPrivKeyFromSecret([]byte(fmt.Sprintf("verif-acc-%d", i)))
 		privKeys = append(privKeys, pk)
 		Addrs = append(Addrs, sdk.AccAddress(pk.PubKey().Address()))
@@ -93,7 +98,7 @@ func NewBase() (*Base, error) {
 	// the documented default authority: the x/gov module account (app_config.go sets no override);
 	// deliberately NOT read back from the keeper
 	b.GovAddr = authtypes.NewModuleAddress(govtypes.ModuleName).String()
-	for i := 0; i < NumAccounts; i++ {
+	for i := 0; i < len(Addrs); i++ {
 		coins := sdk.Coins{}
 		for _, d := range AllDenoms {
 			coins = coins.Add(sdk.NewCoin(d, math.NewIntFromBigInt(Generous)))
